@@ -79,10 +79,13 @@ Fixpoint split_close (s : str) : option (str * str) :=
       end
   end.
 
-(* parseStringBytes.  [bu] = "the buffer starts with backslash-u": the code
-   tests bytes[0] and bytes[1] (not bytes[k]) before reading the second half
-   of a surrogate pair. *)
-Fixpoint parse_slow (bu : bool) (s : str) : option str :=
+(* parseStringBytes.  A \uXXXX escape that is a UTF-16 surrogate is combined
+   with an immediately following \uYYYY escape when the two form a valid pair;
+   otherwise it yields U+FFFD (65533) and nothing more is consumed, as in
+   encoding/json.  (At byte level the code reads 4 bytes after "\u": any
+   non-ASCII byte there is an invalid hex digit, as is a non-ASCII code point
+   here, so the code-point model is exact.) *)
+Fixpoint parse_slow (s : str) : option str :=
   match s with
   | [] => Some []
   | c :: r =>
@@ -90,12 +93,12 @@ Fixpoint parse_slow (bu : bool) (s : str) : option str :=
       match r with
       | [] => None
       | d :: r1 =>
-        if (d =? 34) || (d =? 92) || (d =? 47) || (d =? 39) then option_map (cons d) (parse_slow bu r1)
-        else if d =? 98 then option_map (cons 8) (parse_slow bu r1)
-        else if d =? 102 then option_map (cons 12) (parse_slow bu r1)
-        else if d =? 110 then option_map (cons 10) (parse_slow bu r1)
-        else if d =? 114 then option_map (cons 13) (parse_slow bu r1)
-        else if d =? 116 then option_map (cons 9) (parse_slow bu r1)
+        if (d =? 34) || (d =? 92) || (d =? 47) || (d =? 39) then option_map (cons d) (parse_slow r1)
+        else if d =? 98 then option_map (cons 8) (parse_slow r1)
+        else if d =? 102 then option_map (cons 12) (parse_slow r1)
+        else if d =? 110 then option_map (cons 10) (parse_slow r1)
+        else if d =? 114 then option_map (cons 13) (parse_slow r1)
+        else if d =? 116 then option_map (cons 9) (parse_slow r1)
         else if d =? 117 then
           match r1 with
           | h1 :: h2 :: h3 :: h4 :: r2 =>
@@ -103,24 +106,20 @@ Fixpoint parse_slow (bu : bool) (s : str) : option str :=
             | None => None
             | Some rn =>
               if is_surrogate rn then
-                if negb bu then None
-                else
-                  match r2 with
-                  | a1 :: a2 :: g1 :: g2 :: g3 :: g4 :: r3 =>
-                    (* the code skips 2 bytes and reads 4: modelled for ASCII only
-                       (a non-ASCII character here is outside the model; the
-                       harness does not generate it) *)
-                    if (128 <=? a1) || (128 <=? a2) || (128 <=? g1) || (128 <=? g2) || (128 <=? g3) || (128 <=? g4) then None else
+                match r2 with
+                | a1 :: a2 :: g1 :: g2 :: g3 :: g4 :: r3 =>
+                  if (a1 =? 92) && (a2 =? 117) then
                     match unhex_rune g1 g2 g3 g4 with
-                    | None => None
                     | Some rn2 =>
                       let dec := decode_pair rn rn2 in
-                      if dec =? 65533 then parse_slow bu r3
-                      else option_map (cons dec) (parse_slow bu r3)
+                      if dec =? 65533 then option_map (cons 65533) (parse_slow r2)
+                      else option_map (cons dec) (parse_slow r3)
+                    | None => option_map (cons 65533) (parse_slow r2)
                     end
-                  | _ => None
-                  end
-              else option_map (cons rn) (parse_slow bu r2)
+                  else option_map (cons 65533) (parse_slow r2)
+                | _ => option_map (cons 65533) (parse_slow r2)
+                end
+              else option_map (cons rn) (parse_slow r2)
             end
           | _ => None
           end
@@ -128,19 +127,13 @@ Fixpoint parse_slow (bu : bool) (s : str) : option str :=
       end
     else if c =? 34 then None           (* cannot happen after split_close *)
     else if c <? 32 then None           (* illegal control code *)
-    else option_map (cons c) (parse_slow bu r)
-  end.
-
-Definition starts_bu (s : str) : bool :=
-  match s with
-  | a :: b :: _ => (a =? 92) && (b =? 117)
-  | _ => false
+    else option_map (cons c) (parse_slow r)
   end.
 
 Definition slow (s : str) : option (str * str) :=
   match split_close s with
   | Some (buf, rest) =>
-    match parse_slow (starts_bu buf) buf with
+    match parse_slow buf with
     | Some d => Some (d, rest)
     | None => None
     end
